@@ -20,19 +20,26 @@ type keyT string
 func keyToBytes(k keyT) ([]byte, error)        { return []byte(k), nil }
 func keyFromBytes(b []byte) (keyT, int, error) { return keyT(b), len(b), nil }
 
-// the two value serializers a user may hand to ads.NewMap: the empty value as empty or as nil slice
-func valToBytes(v string) ([]byte, error) { return []byte(v), nil }
-func valToBytesNilEmpty(v string) ([]byte, error) {
-	if v == "" {
-		return nil, nil
+// valT is the value type of the map flavour: raw bytes with the identity serializer (the shape of the
+// repo's own test value type).  The empty value can be handed to Set as an empty or as a nil slice.
+type valT []byte
+
+func valToBytes(v valT) ([]byte, error)        { return v, nil }
+func valFromBytes(b []byte) (valT, int, error) { return b, len(b), nil }
+
+func encode(v, enc string) valT {
+	if enc == "nil" {
+		if v != "" {
+			panic("enc nil is for the empty value")
+		}
+		return nil
 	}
-	return []byte(v), nil
+	return valT(v) // non-nil also for ""
 }
-func valFromBytes(b []byte) (string, int, error) { return string(b), len(b), nil }
 
 // instance is what both flavours offer (the set flavour's value is always the empty value).
 type instance interface {
-	set(k keyT, v string) error
+	set(k keyT, v valT) error
 	get(k keyT) (string, bool, error)
 	has(k keyT) (bool, error)
 	del(k keyT) (bool, error)
@@ -44,24 +51,29 @@ type instance interface {
 }
 
 type mapInst struct {
-	m ads.Map[[32]byte, keyT, string]
+	m ads.Map[[32]byte, keyT, valT]
 }
 
-func (i mapInst) set(k keyT, v string) error                  { return i.m.Set(k, v) }
-func (i mapInst) get(k keyT) (string, bool, error)            { return i.m.Get(k) }
-func (i mapInst) has(k keyT) (bool, error)                    { return i.m.Has(k) }
-func (i mapInst) del(k keyT) (bool, error)                    { return i.m.Delete(k) }
-func (i mapInst) stream(f func(k keyT, v string) error) error { return i.m.Stream(f) }
-func (i mapInst) commit() error                               { return i.m.Commit() }
-func (i mapInst) root() [32]byte                              { return i.m.Root() }
-func (i mapInst) size() int                                   { return i.m.Size() }
-func (i mapInst) restored() bool                              { return i.m.WasRestoredFromStorage() }
+func (i mapInst) set(k keyT, v valT) error { return i.m.Set(k, v) }
+func (i mapInst) get(k keyT) (string, bool, error) {
+	v, exists, err := i.m.Get(k)
+	return string(v), exists, err
+}
+func (i mapInst) has(k keyT) (bool, error) { return i.m.Has(k) }
+func (i mapInst) del(k keyT) (bool, error) { return i.m.Delete(k) }
+func (i mapInst) stream(f func(k keyT, v string) error) error {
+	return i.m.Stream(func(k keyT, v valT) error { return f(k, string(v)) })
+}
+func (i mapInst) commit() error  { return i.m.Commit() }
+func (i mapInst) root() [32]byte { return i.m.Root() }
+func (i mapInst) size() int      { return i.m.Size() }
+func (i mapInst) restored() bool { return i.m.WasRestoredFromStorage() }
 
 type setInst struct {
 	s ads.Set[[32]byte, keyT]
 }
 
-func (i setInst) set(k keyT, _ string) error       { return i.s.Add(k) }
+func (i setInst) set(k keyT, _ valT) error         { return i.s.Add(k) }
 func (i setInst) get(k keyT) (string, bool, error) { panic("ads.Set has no Get") }
 func (i setInst) has(k keyT) (bool, error)         { return i.s.Has(k) }
 func (i setInst) del(k keyT) (bool, error)         { return i.s.Delete(k) }
@@ -105,13 +117,12 @@ func internRoot(items []any, r [32]byte) (id []any, ok bool) {
 // SUT -----------------------------------------------------------------------------------------
 
 type authSUT struct {
-	cfg      core.Ev
-	flavour  string
-	nk       int
-	nilEmpty bool
-	lazy     bool
-	store    kvstore.KVStore
-	m        instance
+	cfg     core.Ev
+	flavour string
+	nk      int
+	lazy    bool
+	store   kvstore.KVStore
+	m       instance
 	// ground truth of the stimuli applied so far (only used to key the root table and to pick
 	// Reopen vs ProbeReopen in the recorder)
 	shadow, committed map[int]string
@@ -124,18 +135,13 @@ func (s *authSUT) open() instance {
 	if s.flavour == "set" {
 		return setInst{ads.NewSet[[32]byte, keyT](s.store, typeutils.ByteArray32ToBytes, typeutils.ByteArray32FromBytes, keyToBytes, keyFromBytes)}
 	}
-	enc := valToBytes
-	if s.nilEmpty {
-		enc = valToBytesNilEmpty
-	}
-	return mapInst{ads.NewMap[[32]byte, keyT, string](s.store, typeutils.ByteArray32ToBytes, typeutils.ByteArray32FromBytes, keyToBytes, keyFromBytes, enc, valFromBytes)}
+	return mapInst{ads.NewMap[[32]byte, keyT, valT](s.store, typeutils.ByteArray32ToBytes, typeutils.ByteArray32FromBytes, keyToBytes, keyFromBytes, valToBytes, valFromBytes)}
 }
 
 func (s *authSUT) Reset(cfg core.Ev) {
 	s.cfg = cfg
 	s.flavour = core.Str(cfg, "flavour")
 	s.nk = core.Int(cfg, "nk")
-	s.nilEmpty = core.Bool(cfg, "nilEmpty")
 	s.lazy = core.Str(cfg, "obs") == "lazy"
 	if s.nk < 1 || s.nk > len(keyAlphabet) {
 		panic("nk outside the key alphabet")
@@ -285,11 +291,11 @@ func (s *authSUT) probe() (res core.Ev) {
 func (s *authSUT) Apply(e core.Ev) (any, any) {
 	switch op := core.Str(e, "op"); op {
 	case "Set", "Add":
-		k, v := core.Int(e, "k"), ""
+		k, v, enc := core.Int(e, "k"), "", "empty"
 		if op == "Set" {
-			v = core.Str(e, "v")
+			v, enc = core.Str(e, "v"), core.Str(e, "enc")
 		}
-		err := s.m.set(key(k), v)
+		err := s.m.set(key(k), encode(v, enc))
 		if err == nil {
 			s.shadow[k] = v
 		}
@@ -336,9 +342,9 @@ func (s *authSUT) Apply(e core.Ev) (any, any) {
 var traceVals = []string{"", "a", "b"}
 
 func (s *authSUT) RandomCfg(r *rand.Rand) core.Ev {
-	cfg := core.Ev{"flavour": "map", "nk": 4, "nilEmpty": r.Intn(2) == 0, "obs": core.Pick(r, "full", "lazy")}
+	cfg := core.Ev{"flavour": "map", "nk": 4, "obs": core.Pick(r, "full", "lazy")}
 	if r.Intn(3) == 0 {
-		cfg["flavour"], cfg["nilEmpty"] = "set", false
+		cfg["flavour"] = "set"
 	}
 	return cfg
 }
@@ -366,7 +372,11 @@ func (s *authSUT) RandomStimulus(r *rand.Rand) core.Ev {
 		if s.flavour == "set" {
 			return core.Ev{"op": "Add", "k": k}
 		}
-		return core.Ev{"op": "Set", "k": k, "v": core.Pick(r, traceVals...)}
+		v, enc := core.Pick(r, traceVals...), "bytes"
+		if v == "" {
+			enc = core.Pick(r, "empty", "nil")
+		}
+		return core.Ev{"op": "Set", "k": k, "v": v, "enc": enc}
 	case n < 75:
 		return core.Ev{"op": "Delete", "k": k}
 	case n < 88:
